@@ -1,7 +1,7 @@
 import GlyModel.Generated.Tables
 import GlyModel.Generated.Grammar
 /-
-  Model of the first round of `SMILESReaktor.react` (reactor.py): token-shape dispatch, `extract_bridge`, `set_fg`.
+  Model of `SMILESReaktor.react` (reactor.py): token-shape dispatch, `extract_bridge`, `set_fg`, and the loop over rounds.
   The residue is seen through a small view supplied at the boundary (what RDKit / enum_c computed): its name, the number of
   its carbons, which element `find_oxygen(n)` returns for every position, the ring carbon `ring_c`, and the position the
   `A` / `-uronic` walk ends at. Outcomes that raise in Python are `error`; long carbon-chain names (`parse_poly_carbon`) are
@@ -23,6 +23,11 @@ inductive Outcome (α : Type) where
   | error (what : String)
   | unmodelled
 deriving Repr
+
+def Outcome.map' {α β : Type} (o : Outcome α) (f : α → β) : Option β :=
+  match o with
+  | .ok a => some (f a)
+  | _ => none
 
 abbrev Chains := List (List Char × List Char)
 
@@ -126,34 +131,49 @@ def bindO {α β} (o : Outcome α) (f : α → Outcome β) : Outcome β :=
   | .error e => .error e
   | .unmodelled => .unmodelled
 
-/-- one modification token of the first round -/
-def reactToken (v : View) (st : RState) (n0 : List Char) : Outcome RState :=
-  if skipped n0 then .ok st else
+/-- What one modification token does: nothing, an edit of the side-chain table, an edit through `set_fg` (with its
+    'recognised' flag), or postponement to the next round. -/
+inductive Effect where
+  | none
+  | chains (cs : Chains)
+  | fg (cs : Chains) (ok : Bool)
+  | postpone (n : List Char)
+deriving Repr
+
+def applyEffect (st : RState) : Effect → RState
+  | .none => st
+  | .chains cs => { st with chains := cs }
+  | .fg cs ok => { st with chains := cs, full := st.full && ok }
+  | .postpone n => { st with higher := st.higher ++ [n] }
+
+/-- one modification token, as an effect on the current side-chain table `cs0` -/
+def tokenEffect (v : View) (cs0 : Chains) (n0 : List Char) : Outcome Effect :=
+  if skipped n0 then .ok .none else
   let n := if n0.head? == some '-' && n0 != "-uronic".toList then n0.drop 1 else n0
   let app (cs : Chains) (pos col : Nat) (s : List Char) := setCell cs pos col (· ++ s)
-  let withFg (col pos : Nat) (be name : List Char) : Outcome RState :=
-    bindO (setFg st.chains col pos be name) (fun (cs, ok) => .ok { st with chains := cs, full := st.full && ok })
+  let withFg (col pos : Nat) (be name : List Char) : Outcome Effect :=
+    bindO (setFg cs0 col pos be name) (fun (cs, ok) => .ok (.fg cs ok))
   if n == ['A'] || n == "-uronic".toList then
-    let cur := getCell st.chains v.uronic 0
-    if v.uronic ≥ st.chains.length then .error "IndexError" else
-    .ok { st with chains := app st.chains v.uronic 0 (if cur.getLast? == some 'O' then "C(=O)O".toList else "(=O)O".toList) }
+    let cur := getCell cs0 v.uronic 0
+    if v.uronic ≥ cs0.length then .error "IndexError" else
+    .ok (.chains (app cs0 v.uronic 0 (if cur.getLast? == some 'O' then "C(=O)O".toList else "(=O)O".toList)))
   else if n == ['N'] then
     let pos := if ["Fru".toList, "Tag".toList, "Sor".toList, "Psi".toList].contains v.name then 1 else 2
-    if pos ≥ st.chains.length then .error "IndexError" else .ok { st with chains := app st.chains pos 0 ['N'] }
-  else if n == "D-".toList || n == "L-".toList then .ok st
+    if pos ≥ cs0.length then .error "IndexError" else .ok (.chains (app cs0 pos 0 ['N']))
+  else if n == "D-".toList || n == "L-".toList then .ok .none
   else if n == "Ac".toList && v.name == "Neu".toList then
-    if 5 ≥ st.chains.length then .error "IndexError" else .ok { st with chains := app st.chains 5 0 "NC(=O)C".toList }
+    if 5 ≥ cs0.length then .error "IndexError" else .ok (.chains (app cs0 5 0 "NC(=O)C".toList))
   else if n == "Gc".toList && v.name == "Neu".toList then
-    if 5 ≥ st.chains.length then .error "IndexError" else .ok { st with chains := app st.chains 5 0 "NC(=O)CO".toList }
+    if 5 ≥ cs0.length then .error "IndexError" else .ok (.chains (app cs0 5 0 "NC(=O)CO".toList))
   else
     match n with
     | [] => .error "IndexError"
     | c0 :: rest =>
       if isDigitC c0 then
         let p := c0.toNat - '0'.toNat
-        if p > st.chains.length - 1 then .ok { st with higher := st.higher ++ [n] }
-        else if rest == ['d'] then .ok { st with chains := app st.chains p 0 ['H'] }
-        else if rest == ['e'] then .ok st
+        if p > cs0.length - 1 then .ok (.postpone n)
+        else if rest == ['d'] then .ok (.chains (app cs0 p 0 ['H']))
+        else if rest == ['e'] then .ok .none
         else if n.length > 4 && n.getD 1 ' ' == '-' && n.getD 3 ' ' == '-' && (n.getD 2 ' ' == 'O' || n.getD 2 ' ' == 'N') then
           let nm := slice n 4 (n.length - 1)
           match fgLookup nm with
@@ -182,11 +202,54 @@ def reactToken (v : View) (st : RState) (n0 : List Char) : Outcome RState :=
             let elem : List Char := if Gen.preserveElem.contains rest then [e] else []
             let col := if e == 'C' then 1 else 0
             if elem == ['C'] then withFg col p [] rest else withFg col p elem rest
-      else .unmodelled      -- position-less bridged / C-linked / plain groups on ring_c: not transcribed yet
+      else if (c0 == 'N' || c0 == 'O' || c0 == 'P') && !conflictsNOP.contains n then
+        -- position-less group bridged by N / O / P: on the carbon next to `ring_c` (`Me`: on `ring_c` itself)
+        bindO (extractBridge n) (fun (bridge, fg) =>
+          match fgLookup fg with
+          | none => .error "KeyError"
+          | some val =>
+            if !bridge.isEmpty && val.isEmpty then .error "IndexError" else
+            let bridge' := if !bridge.isEmpty && val.head? == bridge.getLast? then bridge.dropLast else bridge
+            let pos := if fg == "Me".toList then v.ringC else v.ringC + 1
+            bindO (colFor v pos) (fun col => withFg col pos bridge' fg))
+      else if c0 == 'C' && !Gen.cConflict.contains n then
+        if n.contains '=' || isNumeric rest then .unmodelled          -- `parse_poly_carbon`
+        else bindO (extractBridge n) (fun (bridge, fg) => withFg 1 v.ringC bridge fg)
+      else
+        -- any other position-less group: on `ring_c`; `int(n[0])` of a non-digit raises when the group preserves the element
+        if Gen.preserveElem.contains rest then .error "ValueError"
+        else match fgLookup n with
+          | none => .error "KeyError"
+          | some val =>
+            if val.isEmpty then .error "IndexError" else
+            bindO (colFor v v.ringC) (fun col => withFg col v.ringC [] n)
+
+/-- one modification token of a round -/
+def reactToken (v : View) (st : RState) (n0 : List Char) : Outcome RState :=
+  bindO (tokenEffect v st.chains n0) (fun e => .ok (applyEffect st e))
 
 def initChains (v : View) : Chains := List.replicate (1 + v.ncarbon) ([], [])
 
-def reactRound (v : View) (mods : List (List Char)) : Outcome RState :=
-  mods.foldl (fun acc n => bindO acc (fun st => reactToken v st n)) (.ok ⟨initChains v, [], true⟩)
+def reactRoundFrom (v : View) (mods : List (List Char)) (full : Bool) : Outcome RState :=
+  mods.foldl (fun acc n => bindO acc (fun st => reactToken v st n)) (.ok ⟨initChains v, [], full⟩)
+
+def reactRound (v : View) (mods : List (List Char)) : Outcome RState := reactRoundFrom v mods true
+
+/-- **All rounds** of `react`: every round starts from fresh `side_chains` on the residue as it is now (`views`: one boundary view per
+    round – `assemble_chains` has changed the residue in between), handles the names the previous round postponed, and the loop
+    stops when nothing is left or when a round postponed *everything* it was given (`len(higher_order_groups[0]) == start_len`).
+    Returns the `side_chains` of every round and the flag `full and len(higher_order_groups[0]) == 0`.
+    `startLen` of the first round is the length of the whole recipe (`names` holds the non-modification tokens, too). -/
+def reactLoop : List View → List (List Char) → Nat → Bool → List Chains → Outcome (List Chains × Bool)
+  | [], _, _, _, _ => .unmodelled
+  | v :: vs, mods, startLen, full, acc =>
+    bindO (reactRoundFrom v mods full) fun st =>
+      let acc' := acc ++ [st.chains]
+      if st.higher.length == startLen then .ok (acc', false)
+      else if st.higher.isEmpty then .ok (acc', st.full)
+      else reactLoop vs st.higher st.higher.length st.full acc'
+
+def reactAll (views : List View) (mods : List (List Char)) (recipeLen : Nat) : Outcome (List Chains × Bool) :=
+  if recipeLen == 0 then .ok ([], true) else reactLoop views mods recipeLen true []
 
 end Gly.React
